@@ -216,6 +216,7 @@ package dsl
 //@   ensures an_incomplete_directory_walk_is_an_error: errSeen(filepath.Walk) ==> result1 != nil
 //@   ensures the_namespace_is_a_new_object: result0 != nil ==> fresh(result0)
 //@   ensures success_means_a_namespace: result1 == nil ==> result0 != nil
+//@   ensures namespaces_parsed_before_keep_their_references: forall n *Namespace :: !fresh(n) ==> len(n.References) == old(len(n.References))
 // C10 (located diagnostics): the passes that give every node its file name, and expression nodes their position in the
 // model file, walk the tree through VisitChildren. A subscript argument is a node of its own (the type checker reports
 // errors at it): the walk has to reach the argument, not only its value - otherwise its diagnostics read `:1:3:`.
